@@ -25,10 +25,12 @@ typedef backend::crs<Blk> Crs;
 typedef mpi::distributed_matrix<BB> DM;
 typedef Eigen::MatrixXd Mat;
 
-struct Env { int policy, send_mode, recv_mode; bool reverse; const char *name; };
-static const Env ENVS[] = {{0,0,0,false,"fifo/eager"}, {1,1,1,true,"reverse/late"}, {2,1,0,false,"preempt-always/late-send"}};
+struct Env { int policy, send_mode, recv_mode; bool reverse; const char *name; int threads; };
+// the last environment gives every rank an OpenMP team of 3 (fibers inside the rank fiber) under the reverse policy: the chunk of
+// the highest thread runs first, so anything a loop shares between its iterations by mistake is seen in the "wrong" order
+static const Env ENVS[] = {{0,0,0,false,"fifo/eager",1}, {1,1,1,true,"reverse/late",1}, {2,1,0,false,"preempt-always/late-send",1}, {1,0,0,false,"reverse/eager/3-threads-per-rank",3}};
 static void set_env(const Env &e) {
-    vs::cfg().default_policy = e.policy; vs::cfg().max_threads = 1; vs::cfg().prefix.clear();
+    vs::cfg().default_policy = e.policy; vs::cfg().max_threads = e.threads; vs::cfg().prefix.clear();
     mm::cfg().send_mode = e.send_mode; mm::cfg().recv_mode = e.recv_mode; mm::cfg().reduce_reverse = e.reverse; mm::cfg().explore_completion = false;
     vs::begin_execution();
 }
@@ -69,7 +71,7 @@ static void assemble(const DM &D, int rbeg, Mat &G, std::vector<std::string> &er
     const Crs &L = *D.local(); const Crs &R = *D.remote();
     ptrdiff_t shift = D.loc_col_shift();
     auto put = [&](size_t i, long c, const Blk &v) {
-        if (c < 0 || 2 * c + 1 >= G.cols() || 2 * (rbeg + (long)i) + 1 >= G.rows()) { err.push_back(std::string(what) + ": column/row out of range"); return; }
+        if (c < 0 || c >= G.cols() / 2 || rbeg + (long)i >= G.rows() / 2) { err.push_back(std::string(what) + ": column/row out of range"); return; }
         for (int p = 0; p < 2; ++p) for (int q = 0; q < 2; ++q) G(2 * (rbeg + i) + p, 2 * c + q) += v(p, q);
     };
     for (size_t i = 0; i < L.nrows; ++i) {
@@ -107,7 +109,7 @@ static std::string once(const Sys &s, const Part &rp, const Part &cp, const Env 
     Out o; o.T = Mat::Zero(2 * s.n, 2 * s.m); o.AAt = Mat::Zero(2 * s.m, 2 * s.m); o.AtA = Mat::Zero(2 * s.n, 2 * s.n);
     o.y.assign(2 * s.m, 0); o.r.assign(2 * s.m, 0); o.ip.assign(k, 0); o.gr.assign(k, 0); o.gc.assign(k, 0); o.gnnz.assign(k, 0); o.exc.assign(k, "");
     set_env(e);
-    try { mm::run(k, [&](int r) { rank_body(r, s, rp, cp, o); }); }
+    try { mm::run(k, [&](int r) { rank_body(r, s, rp, cp, o); }); if (e.threads > 1) vf::count("omp_teams_inside_ranks", vs::trace().teams); }
     catch (const vs::Deadlock &d) { return std::string("DEADLOCK: ") + d.what() + mm::where_all(); }
     catch (const std::exception &x) { return std::string("exception escaped: ") + x.what(); }
     for (int r = 0; r < k; ++r) if (!o.exc[r].empty()) return vf::KS() << "exception on rank " << r << ": " << o.exc[r];
